@@ -198,9 +198,16 @@ def check_tdm(text, info, roundtrip=True):
 def replay(ctx, data):
     if data.get("kind") == "tdm":
         info = data["info"]
-        info["parrays"] = {k: (v[0], [complex(*x) if isinstance(x, list) else x for x in v[1]]) for k, v in info["parrays"].items()}
+        def num(x):
+            # complex numbers travel through JSON as [re, im] (jinfo) or, in files written with default=str, as "(1+2j)"
+            if isinstance(x, list):
+                return complex(*x)
+            if isinstance(x, str) and x.endswith("j)") and x.startswith("("):
+                return complex(x)
+            return x
+        info["parrays"] = {k: (v[0], [num(x) for x in v[1]]) for k, v in info["parrays"].items()}
         info["uses"] = [tuple(u) for u in info["uses"]]
-        info["scalars"] = {k: (complex(*v) if isinstance(v, list) else v) for k, v in info["scalars"].items()}
+        info["scalars"] = {k: (num(v) if k != "s" else v) for k, v in info["scalars"].items()}
         return check_tdm(data["text"], info, data.get("roundtrip", True))
     return oracles.generic_replay(data)
 
